@@ -42,11 +42,14 @@ namespace awkward {
     else if (value.IsBool()) {
       writer.Bool(value.GetBool());
     }
-    else if (value.IsInt()) {
-      writer.Int64(value.GetInt());
+    else if (value.IsInt64()) {
+      writer.Int64(value.GetInt64());
+    }
+    else if (value.IsUint64()) {
+      writer.Uint64(value.GetUint64());
     }
     else if (value.IsDouble()) {
-      writer.Int64((int64_t)value.GetDouble());
+      writer.Double(value.GetDouble());
     }
     else if (value.IsString()) {
       writer.String(value.GetString());
